@@ -41,4 +41,14 @@ def lastOp (ops : List (Bool × Nat × Bool)) (id : Nat) : Option Bool :=
 def checkHist (before after : List Repo) (ops : List (Bool × Nat × Bool)) : Bool :=
   after == before.map fun r => { r with tomb := (lastOp ops r.id).getD r.tomb }
 
+/-- well-formedness of a loaded compound shard as far as `List` is concerned: repository names are unique, and every
+    alive repository has at least one document that is not file-tombstoned (`index.Merge` drops empty repositories) -/
+structure ListWF (repos : List Repo) (docs : List Doc) : Prop where
+  names : ∀ (i j : Nat) (ri rj : Repo), repos[i]? = some ri → repos[j]? = some rj → ri.name = rj.name → i = j
+  hasDoc : ∀ (i : Nat) (r : Repo), repos[i]? = some r → r.tomb = false → ∃ d ∈ docs, d.repo = i ∧ live repos d = true
+
+/-- what `List` should answer for a repository predicate: the alive repositories that satisfy it -/
+def listSpec (repos : List Repo) (p : Repo → Bool) : List Nat :=
+  (List.range repos.length).filter fun i => (repos[i]?).any fun r => !r.tomb && p r
+
 end ZoektModel.C17
